@@ -211,7 +211,17 @@ func (g *gen) opC15() Op {
 		case 2:
 			return g.scripted("errfmt", 1)
 		case 3:
-			return g.scripted("errsafefmt", 1)
+			v := g.scripted("errsafefmt", 1)
+			if g.chance(0.6) {
+				// its SafeFormat prints through a nested Printf whose own
+				// format uses %w: the nested printer has its own capture
+				// state (always off), the outer one must not be affected
+				nf := g.pick([]string{"in(%w)", "%v/%w", "%w", "%[1]w|%[1]v", "%w %w"})
+				na := []Val{{K: "goerr", ID: g.id(), S: Str("inner " + g.payload())}, {K: "goerr", ID: g.id(), S: "inner2"}}
+				at := g.r.Intn(len(v.P) + 1)
+				v.P = append(v.P[:at:at], append([]Step{{A: "pf", S: Str(nf), V: na}}, v.P[at:]...)...)
+			}
+			return v
 		case 4:
 			return g.scripted("errstr", 1)
 		case 5:
